@@ -18,7 +18,7 @@ func checkC14(w *Worker) {
 	w.appInit()
 	dev, maxItems, maxRec := 1, 2, 2
 	if w.Tier == "thorough" {
-		dev, maxItems, maxRec = 1, 3, 3
+		dev, maxItems, maxRec = 1, 3, 2 // (3 days x 3 items does not finish within the deadline)
 	}
 	dates := []time.Time{time.Date(2021, 1, 24, 0, 0, 0, 0, time.UTC), time.Date(2021, 1, 25, 0, 0, 0, 0, time.UTC), time.Date(2021, 1, 24, 0, 0, 0, 0, time.UTC)}
 	body := func(maxRec int, names []int) func(x *Exec) {
